@@ -236,7 +236,9 @@ def judge_model(ctx, vec, obs, o, s, isA, isB, cls, meta):
     nat = np.array(vec['nat'], float) * s
     c, w, f = (nat[:, 0] + nat[:, 1]) / 2, nat[:, 1] - nat[:, 0], np.array(vec['f'], float)
     p = np.random.RandomState(len(c) + len(vec['rows'])).permutation(len(c))
-    cands = [(k, [float(frac(x)) for x in vec['mod' + k]]) for k, on in (('A', isA or not isB), ('B', isB)) if on]
+    if any(x['k'] != 'num' for k in 'AB' for x in vec['mod' + k]):
+        raise Machinery('a model vector exported for a covering native grid has a bin without model')
+    cands = [(k, [float(frac(x['v'])) for x in vec['mod' + k]]) for k, on in (('A', isA or not isB), ('B', isB)) if on]
     gcls = cls + ':bins=' + geo_class(vec['geo' + cands[0][0]])
     try:
         out = obs.create_binner().bindown(c[p], f[p], grid_width=w[p])
@@ -246,6 +248,87 @@ def judge_model(ctx, vec, obs, o, s, isA, isB, cls, meta):
     except Exception as exn:
         ok, detail = False, 'exception %r' % exn
     ctx.verdict('model_binned_over_own_centre_and_width', ok, cls=gcls, detail=detail, vector=meta)
+
+
+COV = ('low', 'high', 'mid', 'partial')
+
+
+def cov_class(c):
+    return '+'.join(k for k in COV if c.get(k)) or 'all-covered'
+
+
+def judge_cover(ctx, vec, perm, source, scale, tmpdir, route):
+    """COVERAGE of the observation's bins by the model (MC_ObsBin: Cuts, ObsBin!ModelOnObsCov): the native grid of the model
+    stops short of some bins (low end, high end, both) or has a gap.  Element i of the binned model is TLC's exact value
+    for the bin of element i wherever the model reaches that bin; the bins it does not reach are not judged (documented:
+    they carry no model flux) -- but they may not move the others.  route 'bindown': create_binner().bindown with the cells'
+    widths; 'bin_model': create_binner().bin_model((wngrid, flux, ..)) -- no widths are passed on, so the same piecewise
+    constant model is handed over on its uniform refinement (cells of the finest native width; contiguous grids only)."""
+    rows, ncol = vec['rows'], vec['ncol']
+    prow = [rows[i] for i in perm]
+    meta = dict(vec, perm=list(perm), source=source, scale=scale, cover=route)
+    s = float(scale)
+    cls0 = '%s:%dcol:%s' % (source, ncol, 'sorted-asc-wl' if list(perm) == sorted(perm) else 'permuted')
+    try:
+        obs = load(source, real_rows(prow, ncol, 1, scale), tmpdir)
+        o = observe(obs)
+        wA = [float(frac(x)) * s for x in vec['exp']['wnwA']]
+        wB = [float(frac(x)) * s for x in vec['exp']['wnwB']]
+        k = 'B' if (allclose(o['wid'], wB, REL) and not allclose(o['wid'], wA, REL)) else 'A'
+        exp, cov = vec['mod' + k], vec['cov' + k]
+        cls = '%s:cover=%s:cut=%s:%s' % (cls0, cov_class(cov), vec['cut'], route)
+        nat = np.array(vec['nat'], float) * s
+        lo, hi, f = nat[:, 0], nat[:, 1], np.array(vec['f'], float)
+        if route == 'bin_model':
+            if np.any(lo[1:] != hi[:-1]):
+                raise Machinery('bin_model route asked for a native grid with a gap')
+            iw = [int(y) - int(x) for x, y in vec['nat']]
+            g = float(np.gcd.reduce(iw)) * s
+            reps = np.array(iw) // int(np.gcd.reduce(iw))
+            ed = lo[0] + g * np.arange(reps.sum() + 1)
+            lo, hi, f = ed[:-1], ed[1:], np.repeat(f, reps)
+        c, w = (lo + hi) / 2, hi - lo
+        p = np.random.RandomState(len(c) + len(rows)).permutation(len(c))
+        b = obs.create_binner()
+        out = b.bin_model((c[p], f[p], None, None)) if route == 'bin_model' else b.bindown(c[p], f[p], grid_width=w[p])
+        got = np.asarray(out[1], float)
+        ok = np.array_equal(out[0], o['wn']) and np.array_equal(out[3], o['wid']) and got.shape == o['wn'].shape
+        # 1e-9: the sums of at most ~40 products of lattice numbers of size <= 1e4 (rounding ~1e-14 relative)
+        bad = [] if not ok else [i for i, e in enumerate(exp) if e['k'] == 'num' and not close(float(got[i]), float(frac(e['v'])), rel=1e-9)]
+        ok = ok and not bad
+        detail = ('binned model %r; expected at the covered elements %r (element(s) %r differ); bin centres %r widths %r; native cells %r'
+                  % (got.tolist(), [float(frac(e['v'])) if e['k'] == 'num' else e['k'] for e in exp], bad, o['wn'].tolist(), o['wid'].tolist(), vec['nat']))
+    except Machinery:
+        raise
+    except Exception as exn:
+        ok, detail, cls = False, 'exception %r' % exn, cls0 + ':cover:' + route
+    ctx.verdict('binner_aligned', ok, cls=cls, detail=detail, vector=meta)
+    ctx.verdict('model_binned_over_own_centre_and_width', ok, cls=cls, detail=detail, vector=meta)
+
+
+def run_cover(ctx, vecs, rng):
+    """every exported (rows, cut native model, exact binned model with coverage kinds) vector: array source in the sorted and
+    one random row order, both routes where the grid is contiguous; a file-based source for every fourth."""
+    need = {'low', 'high', 'mid', 'partial'}
+    seen = {k for v in vecs for k in need if v['covA'][k]}
+    if seen != need or not any(v['covA']['low'] and v['covA']['ncov'] >= 2 for v in vecs):
+        raise Machinery('exported coverage patterns lack %r' % sorted(need - seen))
+    n = 0
+    with tempfile.TemporaryDirectory(prefix='c17c_') as tmpdir:
+        for vi, vec in enumerate(vecs):
+            ident = tuple(range(len(vec['rows'])))
+            perms = list(itertools.permutations(ident))
+            perm = perms[rng.randrange(1, len(perms))]
+            routes = ['bindown'] + (['bin_model'] if vec['cut'] != 'gap' else [])
+            for pi, pm in enumerate((ident, perm)):
+                for route in routes:
+                    judge_cover(ctx, vec, pm, 'array', 1 if (vi + pi) % 2 else 4, tmpdir, route)
+                    n += 1
+            if vi % 4 == ctx.seed % 4:
+                judge_cover(ctx, vec, perm, ('text', 'hdf5')[(vi // 4) % 2], 1, tmpdir, routes[-1])
+                n += 1
+    ctx.traces += n
+    return n
 
 
 def run_vectors(ctx, vecs, rng, perm_cap, one_file_source=False):
@@ -692,6 +775,8 @@ def run(ctx):
                       binner_histories='observation (bins = 4 target bins of the BinnerHistory alphabet: overlapping, gapped, unsorted rows) -> create_binner() -> every ordered pair of 32 (40) '
                       'operations (bindown with / without grid_width and error, bin_model, generate_spectrum_output x 3 sizes on 4 (5) native grids) and 120 (500) random '
                       'sequences of 6 (9); sources array (all), text / hdf5 / 3-column array (the longer ones + a quarter of the pairs)',
+                      coverage='3 rows over {4,6,12} ({4,6,9,12}) um, widths {1,5} um; native cells 120/240/360 cm-1 removed below / above / (both) / between any two edges of the observation\'s bins; '
+                      'sorted + one random row order; bindown with widths and bin_model on the uniform refinement; MC_ObsBin: window algorithm of FluxBinner with cuts low / gap (thorough: + 4 rows, low)',
                       obsbin_exhaustive='2-3 (2-4) rows over {4,5,10,20} ({4,5,10,20,25}) um, widths {1,7} um, native cells 200/400/600 (100/200/300) cm-1, FluxBinner window algorithm on the 12.5 (0.5) cm-1 lattice')
     ctx.assumptions = ['distinct positive wavelengths, >=2 rows, 4 columns: 0 < width < 2 wl; 3 columns: lowest mirrored edge positive',
                        'widths / edges: either consistent reading accepted (wavelength-space or wavenumber-space)',
@@ -699,7 +784,7 @@ def run(ctx):
                        'TLC + CommunityModules Json/IOUtils; float64 evaluation of 10000/wl within 1e-12',
                        'binner histories: wavelengths 10000/c and widths w wl^2/10000 put the loaded bins on the lattice bins (c, w) of the alphabet up to rounding (checked at 1e-12 / 1e-9); '
                        'binned values compared with TLC\'s exact ones at 1e-9, exposed centres / widths and fresh-binner results bit for bit',
-                       'model binned to the observation: the native model tiles an interval containing every observation bin (partial coverage is property C05); binned values compared at 1e-9 relative (vectors) / 2e-3 absolute on values 0..20 (traces)']
+                       'model binned to the observation: the native model tiles an interval containing every observation bin, or (coverage vectors) stops short of some bins / has a gap: covered and partly covered bins are judged (mean over the covered part, C05), bins the model does not reach and bins it only touches are not; binned values compared at 1e-9 relative (vectors) / 2e-3 absolute on values 0..20 (traces)']
     # TLC generates the text files and the holder histories (small single-worker runs) while the runs below are under way
     from concurrent.futures import ThreadPoolExecutor
     from .. import fx_textfile, fx_obsholder
@@ -722,7 +807,10 @@ def run(ctx):
     # last sentence: model binned to the observation = overlap-weighted mean over each element's own bin
     ctx.check_spec('obsbin-4col', 'MC_ObsBin', 'MC_ObsBin_4col_%s.cfg' % t, workers=8 if q else 16)
     ctx.expect_refuted('refute-resumestart', 'MC_ObsBin', 'MC_ObsBin_ref_resumestart.cfg', 'AlgRefinesObs', workers=2)
+    # coverage of the bins by the model: results written at a running counter instead of the bin's index
+    ctx.expect_refuted('refute-compact', 'MC_ObsBin', 'MC_ObsBin_ref_compact.cfg', 'AlgRefinesObs', workers=2)
     if not q:
+        ctx.check_spec('obsbin-4col-gap', 'MC_ObsBin', 'MC_ObsBin_4col_gap.cfg', workers=8)
         ctx.expect_refuted('refute-resumestop', 'MC_ObsBin', 'MC_ObsBin_ref_resumestop.cfg', 'AlgRefinesObs', workers=2)
     rng = random.Random(ctx.seed * 131 + 17)
     sfx = '' if q else '_thorough'
@@ -758,8 +846,9 @@ def run(ctx):
     t_text = _time.time() - t0
     ctx.note('%d text files (every arrangement of 2%s data rows x 6 number styles with at most one comment / blank line + TLC-simulated files of 2-4 rows) '
              'loaded through ObservedSpectrum, wavelengths below one micron' % (nt, '' if q else '-3'))
-    res = ctx.check_spec('export-model', 'MC_ObsBin', 'EX_ObsBin%s.cfg' % sfx, workers=1)
-    vecs = res.tagged('VEC')
+    res = ctx.check_spec('export-model', 'MC_ObsBin', 'EX_ObsBin%s.cfg' % sfx, workers=8)
+    import json as _json
+    vecs = sorted(res.tagged('VEC'), key=lambda v: _json.dumps(v, sort_keys=True))   # several workers: canonical order
     v4 = [v for v in vecs if v['ncol'] == 4]
     if not v4 or len(v4) == len(vecs):
         raise Machinery('no 3- or no 4-column model vectors exported')
@@ -771,6 +860,13 @@ def run(ctx):
     run_vectors(ctx, vecs, rng, 24 if q else 40, one_file_source=True)
     ctx.add_sample(dict(vector={k: v4[len(v4) // 2][k] for k in ('rows', 'ncol', 'nat', 'f', 'modA', 'geoA')}))
     ctx.note('%d exported (rows, native model, exact binned model) vectors: narrow channels and broad bands, every row order' % nm)
+    res = ctx.check_spec('export-cover', 'MC_ObsBin', 'EX_ObsBin_cover%s.cfg' % sfx, workers=2 if q else 8)
+    cvecs = sorted(res.tagged('VEC'), key=lambda v: repr((v['rows'], v['cut'], v['nat'])))
+    if not cvecs:
+        raise Machinery('no coverage vectors exported')
+    ncov = run_cover(ctx, cvecs, rng)
+    ctx.add_sample(dict(vector={k: cvecs[len(cvecs) // 2][k] for k in ('rows', 'ncol', 'cut', 'nat', 'f', 'modA', 'covA')}))
+    ctx.note('%d exported (rows, native model that does not reach every bin, exact binned model) vectors: %d bindown / bin_model calls on the observation\'s binner' % (len(cvecs), ncov))
     run_traces(ctx, 150 if q else 1500)
     t0 = _time.time()
     run_binner_histories(ctx)
@@ -804,6 +900,9 @@ def replay(ctx, violations):
                 ctx.verdict('trace_widths_edges_reading', reading != 'none', cls=cls, detail='reading %s' % reading, vector=vec)
             else:
                 n = len(vec['rows'])
+                if vec.get('cover'):
+                    judge_cover(ctx, vec, vec['perm'], vec['source'], vec['scale'], tmpdir, vec['cover'])
+                    continue
                 if vec.get('layout'):
                     judge_vector(ctx, vec, vec['perm'], vec['source'], vec['scale'], tmpdir, None, layout=vec['layout'], lcls=vec.get('lcls'))
                     continue
